@@ -97,12 +97,24 @@ struct Tape {
   // them), so every raw element goes through a bijective mixer first (murmur3 finaliser; 0 stays 0, so a zeroed
   // or exhausted tape still selects the first alternative everywhere)
   static uint32_t mix(uint32_t x) { x ^= x >> 16; x *= 0x85ebca6bu; x ^= x >> 13; x *= 0xc2b2ae35u; x ^= x >> 16; return x; }
-  uint32_t u32() { return pos < n ? mix(d[pos++]) : (pos++, 0u); }
+  // Large structures need more choices than a sized tape holds.  A generator may switch on 'extend': past its end
+  // the tape then continues with a pseudo-random stream seeded by a hash of its own contents (still a pure function
+  // of what rapidcheck generated; shrinking the real prefix still simplifies the head of the case).
+  bool extend = false;
+  uint64_t ext = 0;
+  uint32_t u32() {
+    if (pos < n) return mix(d[pos++]);
+    pos++;
+    if (!extend) return 0u;
+    if (!ext) { ext = 1469598103934665603ull; for (size_t k = 0; k < n; k++) { ext ^= d[k]; ext *= 1099511628211ull; } ext |= 1; }
+    ext ^= ext << 13; ext ^= ext >> 7; ext ^= ext << 17;
+    return mix((uint32_t)(ext >> 24));
+  }
   uint32_t below(uint32_t k) { return k ? u32() % k : 0u; }
   int range(int lo, int hi) { return hi <= lo ? lo : lo + (int)below((uint32_t)(hi - lo + 1)); }
   bool coin() { return (u32() & 1u) != 0; }
   bool chance(uint32_t num, uint32_t den) { return below(den) + num >= den; }  // P = num/den; an exhausted tape says no
-  bool exhausted() const { return pos >= n; }
+  bool exhausted() const { return !extend && pos >= n; }
 };
 
 // ---------------------------------------------------------------- result of one case
@@ -165,6 +177,7 @@ mpq_QSprob sut_build(const Model &m, int route, std::string *err);
 // read the whole problem back through the query API; cross-check redundant routes.
 // returns false + why if the query API fails or is inconsistent with itself
 bool sut_dump(mpq_QSprob p, Model &out, std::string *why, bool deep = true);
+extern bool g_built_via_file;              // the last sut_build really returned a file-read object (route R_FILE can fall back)
 // copy lib-allocated mpq array (EGlpNum array with size header) etc. are handled inside
 
 struct Solution {
